@@ -1,28 +1,42 @@
 #!/venv/bin/python
 """Fail-closed translator /repo -> coq/theories/Gen/*.v (DESIGN.md §3.1).
 
-usage: translate.py <repo> <outdir>.  Each generator reads the source with `ast`, accepts
-only the shapes it knows, and aborts (exit 1) on anything else.  A file is rewritten only
-when its text changes, so an unchanged tree costs nothing in `make`."""
+usage: translate.py <repo> <outdir>.  Every module tools/gen/<x>.py reads the source with `ast`,
+accepts only the shapes it knows, and raises Refuse on anything else (exit 1: the check treats that
+as a broken obligation `translator`).  A file is rewritten only when its text changes, so an
+unchanged tree costs nothing in `make`."""
+import importlib
 import sys
+import traceback
 from pathlib import Path
 
-sys.path.insert(0, str(Path(__file__).resolve().parent))
+HERE = Path(__file__).resolve().parent
+sys.path.insert(0, str(HERE))
+sys.dont_write_bytecode = True
 
 
 def main():
     repo, out = Path(sys.argv[1]), Path(sys.argv[2])
     out.mkdir(parents=True, exist_ok=True)
-    import gen_tables
+    from gen import Refuse
     ok = True
-    for name, fn in gen_tables.GENERATORS.items():
+    wanted = set()
+    for mod_path in sorted((HERE / "gen").glob("*.py")):
+        if mod_path.name == "__init__.py":
+            continue
+        mod = importlib.import_module(f"gen.{mod_path.stem}")
+        wanted.add(f"{mod.NAME}.v")
         try:
-            text = fn(repo)
-        except gen_tables.Refuse as e:
-            print(f"translator:{name}: refused: {e}")
+            text = mod.generate(repo)
+        except Refuse as e:
+            print(f"translator:{mod.NAME}: refused: {e}")
             ok = False
             continue
-        p = out / f"{name}.v"
+        except Exception:  # noqa: BLE001 - unknown shape = refuse
+            print(f"translator:{mod.NAME}: refused: {traceback.format_exc()[-800:]}")
+            ok = False
+            continue
+        p = out / f"{mod.NAME}.v"
         if not p.exists() or p.read_text() != text:
             p.write_text(text)
     return 0 if ok else 1
